@@ -28,7 +28,7 @@ PROPS["C03"] = {
     "assumptions": ["math/big is correct", "verifref curve constants and formulas (self-tested against published vectors)"],
     "units": [
         {   # three arithmetic backends; the in-package tests call Generic and (on AVX2) Vector explicitly
-            "pkg": "curve", "configs": {"quick": _C03_B3 + ["386"], "thorough": _C03_B3 + ["386"]},
+            "pkg": "curve", "configs": {"quick": _C03_B3 + ["386", "386x64"], "thorough": _C03_B3 + ["386", "386x64"]},
             "tests": {
                 "TestC03GroupLaw":      _c03(1600, 24000, 1, 8),
                 "TestC03ScalarMul":     _c03(800, 12000, 2, 16),
